@@ -117,6 +117,7 @@ class HashCost:
                     cst = add(cst, self.cost(tb))
             w[bb] = cst
         loops = g.loops()
+        bad_loops = []
         # classify hashing loops
         loop_sym = {}
         in_loop = {}
@@ -136,10 +137,10 @@ class HashCost:
                 loop_sym[h] = (0, 0, 1, 0)
             else:
                 loop_sym[h] = (0, 0, 0, 1)
-                self.res.violate("C20.2:%s:hashing-loop:%s" % (body.path, detail.split(";")[0]),
-                                 "a loop in `%s` hashes keys without retiring (removing or relocating) one entry per hash: %s"
-                                 % (body.path, detail), body.loc(h), {"loop_header": h, "blocks": sorted(blocks)},
-                                 "C20.2 loop-discipline")
+                bad_loops.append(("C20.2:%s:hashing-loop:%s" % (body.path.split("#inl")[0], detail.split(";")[0]),
+                                  "a loop in `%s` hashes keys without retiring (removing or relocating) one entry per hash: %s"
+                                  % (body.path.split("#inl")[0], detail), body.loc(h), {"loop_header": h, "blocks": sorted(blocks)},
+                                  "C20.2 loop-discipline"))
         # longest path over the DAG (back edges removed); blocks inside hashing loops weigh 0, the header carries the symbol
         back = set(g.back_edges())
         order = self._topo(g, back)
@@ -161,6 +162,29 @@ class HashCost:
             if bb in best:
                 total = mx(total, best[bb])
         self.active.discard(body.path)
+        if bad_loops and "#inl" not in body.path:
+            # the rebuild of a grow-and-retry loop may sit behind a private, loop-free helper: judge the body with such helpers inlined
+            try:
+                from ..inline import derive
+                from .structural import _named_primitives
+                prims = _named_primitives(self.ctx)
+                eff = self.ctx.eff
+                b2, inl = derive(self.ctx, body, lambda tg: tg.path not in prims and not tg.is_closure and not cfg_of(tg).loops()
+                                 and not any(cls in ("insert", "insert_grow", "remove", "clear", "drain", "into_iter", "new")
+                                             for (cls, _c) in eff.direct.get(tg.path, {}).get("table", [])), depth=3)
+            except Exception:
+                b2, inl = body, []
+            if inl:
+                n_before = len(self.res.violations)
+                total2 = self.cost(b2)
+                if len(self.res.violations) == n_before and not total2[3]:
+                    self.res.note("C20: `%s` judged with %s inlined" % (body.path, ", ".join(x.split("::")[-1] for x in inl)))
+                    bad_loops = []
+                    total = total2
+                else:
+                    del self.res.violations[n_before:]
+        for v in bad_loops:
+            self.res.violate(*v)
         self.memo[body.path] = total
         return total
 
